@@ -44,7 +44,9 @@ def _try(f):
     try:
         return f()
     except Exception as e:
-        return e
+        # keep the exception as a value, but not its traceback: the frames would keep the solution, its network
+        # and everything else alive, and dropped objects could never die
+        return e.with_traceback(None)
 
 
 @op("net.port", seam="node_index_mapper")
@@ -147,3 +149,21 @@ def ssm_all(ctx, a, seam):
         for q in ("c_row_voltage", "c_row_current", "d_row_voltage", "d_row_current"):
             out.append(_try(lambda: getattr(m, q)(b)))
     return out
+
+
+@op("h.drop")
+def h_drop(ctx, a, seam):
+    """the client lets go of a result (a network it loaded, a solution it queried): the simulator forgets every
+    reference it holds, so that the object can die and its memory - and its id() - be reused"""
+    import gc
+    from .engine import Skip
+    hid = a["x"]["h"]
+    if hid not in ctx.handles:
+        raise Skip(hid)
+    ctx.handles.pop(hid, None)
+    ctx.snap_objs.pop("h:" + hid, None)
+    ctx.snap_base.pop("h:" + hid, None)
+    ctx.kept = [k for k in ctx.kept if k[0]["id"] != hid]
+    gc.collect(0)          # young generation only (a full collection of this large process costs tens of ms)
+    ctx.probe("handles_dropped")
+    return None
